@@ -84,6 +84,12 @@ RULE = ("tx: all 8 begin/commit/rollback fail-or-not combinations x all bodies o
         "families of the same (shape, rows); every orm case is run (together with a fixed arity/order boundary stream of 60 cases x 4 "
         "entry points x plain/Ctx, incl. three mixed shapes) through all 4 entry point families (conn, stmt on conn, tx session, stmt on "
         "tx session), plain or Ctx form at random; "
+        "plus per run 15+ case-sensitivity cases (tags differing only in letter case - userId/userid/UserID/USERID, createdAt/"
+        "created_at/CreatedAt ... - with permuted columns and case-variant decoy columns; the tag alphabet of all shapes contains "
+        "camelCase / mixed-case names) and 15+ embedded-arity cases (untagged struct embedding by value or pointer a struct of 2-3 "
+        "fields, column count between the top-level and the flattened field count, mostly strict), each through all 4 entry points; "
+        "plus a body-error-identity sweep (body returns sqlc.ErrNotFound / sql.ErrTxDone / context.Canceled / ... itself, 4 wrappers "
+        "x 6 values x rollback ok/failing); "
         "plus 36 PAIRED cases (thorough: 400): two queries one after the other in the same driver process into two different fully tagged "
         "struct types that are both function-local types called T (reflect.Type.String() coincides; tags at other field positions, "
         "other field counts, swapped tags; 6 pairs x both orders x row/rows x conn/stmt/tx/txstmt at random); "
@@ -235,6 +241,24 @@ def tx_ctx_sweep(rng):
     return out
 
 
+BODY_SENTINELS = ["notfound", "txdone", "canceled", "badconn", "conndone", "deadline"]
+
+
+def tx_sentinel_sweep(rng):
+    """the body returns a well-known error VALUE (sqlc.ErrNotFound = sqlx.ErrNotFound = sql.ErrNoRows, sql.ErrTxDone, ...):
+    it must come back itself, after exactly one Rollback, through every wrapper"""
+    out = []
+    bodies = [[], [{"op": "query", "fault": "none", "react": "return", "p": 0}]]
+    for api in APIS:
+        for sname in BODY_SENTINELS:
+            for rb in ("none", "gen"):
+                d = {"t": "tx", "begin": {"k": "none", "n": 0}, "commit": rng.choice(["none", "gen"]), "rollback": rb,
+                     "stmts": json_copy(rng.choice(bodies)), "final": {"k": "err", "n": 0, "s": sname},
+                     "api": api, "log": rng.randrange(3), "slow": rng.random() < 0.3, "cx": "live", "bound": False}
+                out.append(d)
+    return out
+
+
 def json_copy(x):
     import json
     return json.loads(json.dumps(x))
@@ -251,6 +275,8 @@ def tx_random(rng, n):
             stmts.append(s)
         fin = dict(rng.choice(FINALS))
         fin["n"] = rng.randrange(50) if fin["k"] != "nil" else 0
+        if fin["k"] == "err" and rng.random() < 0.4:
+            fin["s"] = rng.choice(BODY_SENTINELS)
         d = {"t": "tx", "begin": begin_fault(rng, rng.random() < 0.1), "commit": rkind(rng) if rng.random() < 0.4 else "none",
              "rollback": rkind(rng) if rng.random() < 0.4 else "none", "stmts": stmts, "final": fin}
         d.update(settings(rng))
@@ -259,7 +285,7 @@ def tx_random(rng, n):
 
 
 # ------------------------------------------------------------------------------------------ orm
-TAGS = list("abcdefgh")
+TAGS = list("abcdefgh") + ["userId", "userid", "User_ID", "UserID", "A", "B", "createdAt", "created_at", "CreatedAt", "eMail"]
 KINDS = ["int"] * 9 + ["str"] * 6 + ["nint"] * 3 + ["opaque"]
 
 
@@ -373,6 +399,12 @@ def gen_struct_case(rng):
         cols = names[:k]
         for _ in range(rng.choice([0, 0, 1, 2, 4])):
             cols.append(rng.choice(["x", "y", "w", "id", "v"]) + str(rng.randrange(3)))
+        if names and rng.random() < 0.3:
+            # a column whose name differs from a tag only in letter case: it names NO field
+            t = rng.choice(names)
+            v = rng.choice([t.upper(), t.lower(), t.swapcase(), t.capitalize()])
+            if v not in named and v not in cols:
+                cols.append(v)
         if cols and rng.random() < 0.05:
             cols.append(cols[0])                           # duplicate column name
         if not cols:
@@ -393,6 +425,46 @@ def gen_struct_case(rng):
             rng.shuffle(cols)
         ckinds = [(kinds[i] if i < nf else None) for i in range(nc)]
     return fs, cols, ckinds
+
+
+CASE_GROUPS = [["userId", "userid", "UserID", "USERID"], ["createdAt", "created_at", "CreatedAt"], ["a", "A"], ["eMail", "email", "Email"]]
+
+
+def gen_case_sensitive(rng):
+    """fully tagged struct whose tags differ only in letter case (camelCase / snake / upper), columns = the tags permuted
+    (sometimes plus another case variant that names no field)"""
+    group = rng.choice(CASE_GROUPS)
+    tags = group[:]
+    rng.shuffle(tags)
+    decoy = tags.pop() if len(tags) > 2 and rng.random() < 0.5 else None
+    extra = rng.choice(TAGS[:8])
+    fs = [{"tag": t, "ptr": rng.random() < 0.2, "k": rng.choice(["int", "int", "str"])} for t in tags + [extra]]
+    cols = tags + [extra] + ([decoy] if decoy else [])
+    rng.shuffle(cols)
+    kinds = {f["tag"]: f["k"] for f in fs}
+    mode = rng.choice(["row", "rows"])
+    rows = [[gen_cell(rng, kinds.get(c, "int"), 0.0, True) for c in cols] for _ in range(1 if mode == "row" else rng.randint(1, 3))]
+    shape = {"d": "slice", "ptr": rng.random() < 0.5, "e": {"fs": fs}} if mode == "rows" else {"d": "elem", "ptr": False, "e": {"fs": fs}}
+    return {"t": "orm", "mode": mode, "strict": rng.random() < 0.6, "shape": shape, "cols": cols, "rows": rows}
+
+
+def gen_embedded_arity(rng):
+    """untagged struct embedding (by value / by pointer) a struct with 2-3 fields; column count between the number of
+    top-level fields and the flattened field count (short by 1..k, exact, sometimes one more)"""
+    leaf = lambda: {"tag": "", "ptr": rng.random() < 0.2, "k": rng.choice(["int", "int", "str"])}
+    fs = [leaf() for _ in range(rng.randint(0, 2))]
+    emb = {"tag": "", "ptr": rng.random() < 0.5, "emb": [leaf() for _ in range(rng.randint(2, 3))]}
+    fs.insert(rng.randint(0, len(fs)), emb)
+    if rng.random() < 0.25:
+        fs.append({"tag": "", "ptr": rng.random() < 0.5, "emb": [leaf() for _ in range(2)]})
+    kinds = flatten(fs)
+    nf, ntop = len(kinds), len(fs)
+    nc = rng.choice([rng.randint(max(1, ntop), nf - 1)] * 3 + [nf, nf])
+    cols = ["c%d" % i for i in range(nc)]
+    mode = rng.choice(["row", "rows"])
+    rows = [[gen_cell(rng, kinds[i], 0.0, True) for i in range(nc)] for _ in range(1 if mode == "row" else rng.randint(1, 2))]
+    shape = {"d": "slice", "ptr": rng.random() < 0.5, "e": {"fs": fs}} if mode == "rows" else {"d": "elem", "ptr": False, "e": {"fs": fs}}
+    return {"t": "orm", "mode": mode, "strict": rng.random() < 0.75, "shape": shape, "cols": cols, "rows": rows}
 
 
 def gen_rows(rng, ckinds):
@@ -535,12 +607,16 @@ def generate(rng, tier, n):
         cases += tx_exhaustive(rng)
         cases += tx_sweep(rng)
         cases += tx_ctx_sweep(rng)
+        cases += tx_sentinel_sweep(rng)
         cases += tx_random(rng, 60 if tier == "quick" else 600)
     else:
         cases += tx_random(rng, 40)
     nfam = max(1, n // 30) if tier != "thorough" else max(1, n // 100)
     for _ in range(nfam):
         cases += gen_family(rng, 4 if tier != "thorough" else 120)
+    for _ in range(max(12, n // 20)):
+        cases.append(gen_case_sensitive(rng))
+        cases.append(gen_embedded_arity(rng))
     while len([c for c in cases if c["t"] == "orm"]) < n:
         cases.append(gen_orm(rng))
     out = via_all(rng, cases)
@@ -614,7 +690,11 @@ def search(rng, problems):
                 out.append(d)
     out += tx_sweep(rng)
     out += tx_ctx_sweep(rng)
+    out += tx_sentinel_sweep(rng)
     out += boundary_orm()
+    for _ in range(10):
+        out.append(gen_case_sensitive(rng))
+        out.append(gen_embedded_arity(rng))
     return via_all(rng, out) + pairs_all(rng) + streams_all(rng)
 
 
@@ -643,8 +723,8 @@ def drive(cases, tier):
 
 # ------------------------------------------------------------------------------------------ encode
 SENT = {"begin": "EBegin", "commit": "ECommit", "rollback": "ERollback", "unavailable": "EUnavailable"}
-FK = {"badconn": "KBadConn", "conndone": "KConnDone", "txdone": "KTxDone", "canceled": "KCanceled", "deadline": "KDeadline"}
-KIND_MSG = {"driver: bad connection": "badconn", "sql: connection is already closed": "conndone",
+FK = {"notfound": "KNoRows", "badconn": "KBadConn", "conndone": "KConnDone", "txdone": "KTxDone", "canceled": "KCanceled", "deadline": "KDeadline"}
+KIND_MSG = {"sql: no rows in result set": "notfound", "driver: bad connection": "badconn", "sql: connection is already closed": "conndone",
             "sql: transaction has already been committed or rolled back": "txdone",
             "context canceled": "canceled", "context deadline exceeded": "deadline"}
 
@@ -711,6 +791,8 @@ def react_term(s):
 def final_term(f):
     if f["k"] == "nil":
         return "ONil"
+    if f["k"] == "err" and f.get("s"):
+        return "(OErr (EKind %s))" % FK[f["s"]]
     if f["k"] == "err":
         return "(OErr (EBody %s))" % cnat(f["n"])
     return "(OPanic %s)" % cnat(f["n"])
